@@ -79,9 +79,16 @@ def diff():
 
 def affects(scope):
     """the environment differences that matter to a property with this GEN_SCOPE"""
+    import re
     out = {}
     for f, d in diff().items():
         pre = FEEDS.get(f, [])
         if any(n.startswith(p) or n == p for n in scope for p in pre):
             out[f] = d
+            continue
+        # an inherent method added to the Deref newtype AsyncFixedBuf shadows the FixedBuf method of the same name for every user of the
+        # tokio type: that concerns the properties about that FixedBuf method, although their own source file is untouched
+        added = [x for x in d[0] if (m := re.match(r"(?:impl-fn \[\]|pub-fn) AsyncFixedBuf.*:: (\w+)$", x)) and ("Fb_" + m.group(1)) in scope]
+        if added:
+            out[f] = (added, [])
     return out
